@@ -179,17 +179,38 @@ def k_perc_range(E, kindsel):
                  And(Implies(inside, kind == 'ok'), Implies(Not(inside), kind == 'AmpycloudError'))),
                 ('int 0 -> 0, 100 -> 8', And(Implies(v == 0, kind == 'ok' and res[0] == 0),
                                              Implies(v == 100, kind == 'ok' and res[0] == 8)))]
-    # array of two percentages: element-wise, same answers as the scalar calls
+    # array of two percentages: element-wise, same answers as the scalar calls; the caller's array is left alone
     a, b = E.fp('a'), E.fp('b')
     E.assume(And(a >= 0, a <= 100, b >= 0, b <= 100))
     N = np()
-    kind, res = outcome(wmo.perc2okta, N.array([a, b]))
+    arg = N.array([a, b])
+    kind, res = outcome(wmo.perc2okta, arg)
+    untouched = And(same_float(fval(arg[0]), a), same_float(fval(arg[1]), b))
     ka, ra = outcome(wmo.perc2okta, a)
     kb, rb = outcome(wmo.perc2okta, b)
     E.cover('inside')
     ok = kind == 'ok' and ka == 'ok' and kb == 'ok'
-    return [('array argument accepted', ok),
+    return [('array argument accepted', ok), ('the array argument is not modified', untouched),
             ('array result = scalar results', ok and And(len(res) == 2, res[0] == ra[0], res[1] == rb[0]))]
+
+
+def k_perc_array(E):
+    """Real-number semantics: a float array argument gives the scalar answers element-wise and is not modified."""
+    from ampycloud import wmo
+    N = np()
+    a, b = E.real('a'), E.real('b')
+    E.assume(And(a >= 0, a <= 100, b >= 0, b <= 100))
+    arg = N.array([a, b])
+    kind, res = outcome(wmo.perc2okta, arg)
+    untouched = And(same_float(fval(arg[0]), a), same_float(fval(arg[1]), b))
+    ka, ra = outcome(wmo.perc2okta, a)
+    kb, rb = outcome(wmo.perc2okta, b)
+    E.cover('inside')
+    ok = kind == 'ok' and ka == 'ok' and kb == 'ok'
+    k2, res2 = outcome(wmo.perc2okta, arg)
+    return [('array argument accepted', ok), ('the array argument is not modified', untouched),
+            ('array result = scalar results', ok and And(len(res) == 2, res[0] == ra[0], res[1] == rb[0])),
+            ('a second call on the same array gives the same oktas', ok and k2 == 'ok' and And(res2[0] == res[0], res2[1] == res[1]))]
 
 
 def _mranges(M, parts):
@@ -218,6 +239,8 @@ HARNESSES = [
     H('K-perc-range', k_perc_range, quick=[(0,)], thorough=[(0,), (2,)], float_model='F', logic='QF_FP',
       cover=['inside', 'outside', 'nan'], query_timeout_ms=600000,
       doc='range check on any binary64 argument (NaN, inf included); array argument agrees with scalar calls'),
+    H('K-perc-array', k_perc_array, quick=[()], thorough=[()], float_model='R', cover=['inside'],
+      doc='real wmo.perc2okta on a two-element float array (reals): element-wise, argument untouched, repeatable'),
     H('K-perc-range-int', k_perc_range, quick=[(1,)], thorough=[(1,)], float_model='R',
       cover=['inside', 'outside'], doc='range check and end values for int arguments'),
 ]
